@@ -33,7 +33,7 @@ RULE = ("per run one BEC2 file: non-empty ordered subset of {customer-key, ECC(s
 REAL = ["bec2format.bec2file (Bec2File, auth blocks, encryptors)", "bec2format.bf3file", "bec2format.crypto registry",
         "register_crypto_plugin (AES adapter, ECC proxies)", "pyaes", "ecdsa"]
 STUBS = ["medium: SimFS", "RNG: SimRng behind register_random_bytes and os.urandom shims"]
-PROBES = ["runs-with-assertions-disabled", "encryptor-list-reused-for-second-file", "user-defined-ecc-decryptor", "writer-list-reused-for-reading", "encrypt-only-entry-in-decryptor-list", "same-object-second-recipient",
+PROBES = ["read-without-mac-check", "two-keyless-objects-different-blocks", "runs-with-assertions-disabled", "encryptor-list-reused-for-second-file", "user-defined-ecc-decryptor", "writer-list-reused-for-reading", "encrypt-only-entry-in-decryptor-list", "same-object-second-recipient",
           "write-after-crashed-attempt", "write-after-failed-attempt", "keystore-arm", "writer-keystore", "session-key-trailing-zero", "crc-low-byte-zero", "crc-high-byte-zero", "key-drawn-from-rng",
           "three-blocks", "subset-leaves-block-opaque", "wrong-key-arm-raised", "wrong-key-arm-returned",
           "encrypted-config", "default-recipient-ecc", "customer-key-present"]
@@ -143,14 +143,17 @@ def run(case):
             narrow = dict(case, only_subset=list(sub))
             if case.get("only_subset") is not None and list(sub) != case["only_subset"]:
                 continue
+            check = nev % 4 != 3      # a valid file reads the same with MAC checking switched off
+            if not check:
+                out.probes["read-without-mac-check"] += 1
             try:
-                got = files.read_file("bec2", fs, env, name, via, True, None, decs)
+                got = files.read_file("bec2", fs, env, name, via, check, None, decs)
             except SimCrash:
                 raise
             except Exception as e:
                 out.fail("C02.read-raises", "%s@%s" % (type(e).__name__, exc_site(e)),
-                         "reading with decryptors for blocks %s of %s raised %s: %s (session key %s)"
-                         % (list(sub), [b["t"] for b in case["blocks"]], type(e).__name__, e, w.key.hex()),
+                         "reading (check_cmac=%s) with decryptors for blocks %s of %s raised %s: %s (session key %s)"
+                         % (check, list(sub), [b["t"] for b in case["blocks"]], type(e).__name__, e, w.key.hex()),
                          narrow)
                 out.ev("read", sub, "raised", type(e).__name__)
                 continue
@@ -276,6 +279,39 @@ def run(case):
                 out.fail("C02.read-raises", "reused-list-%s@%s" % (type(e).__name__, exc_site(e)),
                          "a second file (other security code) written with the same encryptor list object cannot be "
                          "read with its own code: %s: %s" % (type(e).__name__, e), dict(case))
+        # two objects made without a block list, blocks added afterwards: each file carries its own blocks only
+        if case.get("only_subset") is None and case["wrong"] % 3 == 0:
+            nev += 1
+            out.probes["two-keyless-objects-different-blocks"] += 1
+            codeA = bytes.fromhex("%016x" % (case["wrong"] * 2654435761 % (1 << 64)))
+            try:
+                env.install_rng(w.rng)
+                o1 = bf.Bec2File(w.obj.bf3file)
+                o2 = bf.Bec2File(w.obj.bf3file)
+                o1.add_auth_block(bf.UpdateAuthBlock(codeA, 5))
+                o2.add_auth_block(bf.InitEccAuthBlock(case["wrong"] % 4))
+                o1.write_file("k1.bec2")
+                o2.write_file("k2.bec2")
+                fs.restart()
+                tags = []
+                for nm in ("k1.bec2", "k2.bec2"):
+                    hdr_, _ = prov.parse_header(files.binary_of(fs.files[nm])[1])
+                    tags.append([t for t, _ in hdr_])
+                got = files.read_file("bec2", fs, env, "k1.bec2", "path", True, None,
+                                      [bf.ConfigSecurityCodeEncryptor(codeA)])
+                if got.session_key != o1.session_key:
+                    raise ValueError("session key differs")
+            except SimCrash:
+                raise
+            except Exception as e:
+                out.fail("C02.read-raises", "two-objects-%s@%s" % (type(e).__name__, exc_site(e)),
+                         "two Bec2File objects made without a block list, blocks added afterwards: %s: %s"
+                         % (type(e).__name__, e), dict(case))
+            else:
+                if tags != [[2], [3]]:
+                    out.fail("C02.blocks-differ", "two-objects", "two Bec2File objects made without a block list got "
+                             "an update block and an ECC block respectively; the files carry block tags %s" % tags,
+                             dict(case))
         # hardware-unit arm: the ECC decryptor is the caller's own subclass of EccEncryptor with a decrypt() of
         # its own (the documented extension point), not the stock test class
         eccd = [(i, b) for i, b in enumerate(case["blocks"]) if b["t"] == "ecc" and i in w.decryptors]
